@@ -43,7 +43,10 @@ SYMS = ["va", "vb", "vc", "vd", "m", "k", "L", "s", "v x", "", "d", "da"]
 MODS = [m for m in SHIPPED_MODULES]
 LOOKUPS = ["va", "vb", "vc", "vd", "kva", "kvb", "mvc", "hh", "ha", "cd", "nmi", "min.", "Pa", "TR", "dam", "kt", "dm", "hm", "vfa", "vfb"]
 OPS = ["lookup", "anon_dim", "name_dim_ctor", "derive_dim", "anon_prefix", "name_prefix", "define_unit", "anon_unit", "derive_unit",
-       "alias", "alias_bad", "import", "define_dim", "scale"]
+       "alias", "alias_bad", "import", "define_dim", "scale", "overlap"]
+# the "overlap" op: two prefixes and two units of the history's own whose symbols overlap, declared
+# one at a time in generated order -- "vqxy" is vq+xy or vqx+y depending on what exists
+OVERLAP_TEXTS = ["vqxy", "vqy", "vqxxy"]
 
 
 def setup(tier):
@@ -55,7 +58,7 @@ def budget(tier):
 
 
 def strategy(tier):
-    OP = st.sampled_from(OPS + ["lookup", "scale", "anon_prefix", "name_prefix", "anon_dim", "derive_dim", "alias", "define_unit", "derive_unit", "import"])
+    OP = st.sampled_from(OPS + ["lookup", "scale", "anon_prefix", "name_prefix", "anon_dim", "derive_dim", "alias", "define_unit", "derive_unit", "import", "overlap", "overlap"])
     I = st.integers(0, 999)
     step = st.tuples(OP, I, I, I, I).map(list)
     return st.builds(lambda steps: {"steps": steps}, st.lists(step, min_size=4, max_size=25))
@@ -69,6 +72,9 @@ def enumerate_cases(tier):
     # declare it as a symbol
     n = len(LOOKUPS)
     cases.append({"steps": [["import", MODS.index("si"), 0, 0, 0]] + [["lookup", i, (i + 1) % n, 0, 0] for i in range(0, n, 2)]})
+    # overlapping symbols of the history's own, declared in every order with look-ups in between
+    for perm in range(24):
+        cases.append({"steps": [["overlap", 0, 0, perm, 0]]})
     # the anonymous-then-named prefix shapes for every shipped prefix exponent
     for e in (-1, 1, 2, -2, 3, -3, 6, 10, 20):
         for base in (10, 2):
@@ -194,6 +200,30 @@ class Run:
             if got is not obj or obj.symbol != sym:
                 prior = "anonymous-first" if obj.symbol is None else "other"
                 out.fail(f"C19:binding:Prefix:symbol:{prior}", f"{when}: prefix symbol {sym!r} was declared for {obj!r} but resolves to {got!r} and the object reports {obj.symbol!r}")
+        # what a text resolves to is a function of the registries as they are now: exact symbol,
+        # else the shortest registered prefix symbol followed by a registered unit symbol, else a
+        # name (the documented order) -- whatever was looked up or declared before
+        for text in LOOKUPS + OVERLAP_TEXTS:
+            want = None
+            if text in m.Unit._by_symbol:
+                want = m.Unit._by_symbol[text]
+            else:
+                for i in range(1, len(text)):
+                    if text[:i] in m.Prefix._by_symbol and text[i:] in m.Unit._by_symbol:
+                        want = (m.Prefix._by_symbol[text[:i]], m.Unit._by_symbol[text[i:]])
+                        break
+                else:
+                    want = m.Unit._by_name.get(text)
+            try:
+                got = m.Unit.resolve_symbol(text)
+            except KeyError:
+                got = None
+            if isinstance(want, tuple):
+                ok = got is not None and got.prefix is want[0] and dict(got.factors) == dict(want[1].factors) and got is want[0] * want[1]
+            else:
+                ok = got is want
+            if not ok:
+                out.fail("C19:lookup:not-a-function-of-the-registries", f"{when}: {text!r} resolves to {got!r}; the registries as they are now give {want!r}")
         for cls, kind, key, call in self.clashes:
             out.fail(f"C19:two-objects:{cls}:{kind}:{call}", f"{when}: {cls} {kind} {key!r} was declared for a second, different object by {call} without an error")
         self.clashes = []
@@ -262,6 +292,7 @@ def run_case(case) -> core.Outcome:
     anon_prefixes = []
     named_prefixes = {}
     interfering = False
+    inconsistent_declaration = False
     named_something = False
     nontrivial_keys = set()
     r.check(out, "after the core import")
@@ -369,7 +400,36 @@ def run_case(case) -> core.Outcome:
                 zero = [2.5 * units[d % len(units)], 3 * m.One, 5, None][(a + d) % 4]
                 u = dim.scale(zero, name, sym)
                 units.append(u)
+                if isinstance(zero, m.Quantity) and zero.unit.dimension is not dim:
+                    # the library accepted a zero point of another dimension: the conversion
+                    # graph now relates two dimensions, and whatever a later import does with it
+                    # is the consequence of this history's own inconsistent declaration
+                    inconsistent_declaration = True
                 nontrivial_keys.add(("scale", argclass, type(zero).__name__))
+            elif op == "overlap":
+                named_something = True
+                import itertools
+
+                # one declaration, or (b % 3 == 0) all four in the order given by c, each followed
+                # by look-ups of the overlapping texts
+                todo = list(list(itertools.permutations(range(4)))[c % 24]) if b % 3 == 0 else [a % 5]
+                which = "script" if b % 3 == 0 else a % 5
+                for one in todo:
+                    if one == 0 and "vfov y" not in m.Unit._by_name:
+                        units.append(m.Unit.define(m.Length, "vfov y", "y"))
+                    elif one == 1 and "vfov xy" not in m.Unit._by_name:
+                        units.append(m.Unit.define(m.Mass, "vfov xy", "xy"))
+                    elif one == 2:
+                        m.Prefix(7, 11, name="vfov long", symbol="vqx")
+                    elif one == 3:
+                        m.Prefix(7, 12, name="vfov short", symbol="vq")
+                    for text in OVERLAP_TEXTS:
+                        for fn in (m.Unit.resolve_symbol, m.Unit.parse):
+                            try:
+                                fn(text)
+                            except Exception:
+                                pass
+                nontrivial_keys.add(("overlap", str(which)))
             elif op == "lookup":
                 # resolving / parsing a text *before* something declares it must not influence
                 # what it resolves to afterwards
@@ -391,7 +451,10 @@ def run_case(case) -> core.Outcome:
             raised = e
         r.current_call = None
         out.classes.append(f"op:{op}" + (":raised" if raised is not None else ""))
-        if raised is not None and op == "import":
+        if raised is not None and op == "import" and inconsistent_declaration:
+            out.classes.append("import-after-inconsistent-declaration:raised")
+            break
+        elif raised is not None and op == "import":
             out.fail(f"C19:import-raised:{type(raised).__name__}@{core.innermost_frame(raised)}", f"importing measured.{MODS[a % len(MODS)]} raised {type(raised).__name__}: {raised}")
         elif raised is not None:
             nontrivial_keys.add((op, "raised", argclass))
@@ -402,7 +465,9 @@ def run_case(case) -> core.Outcome:
         r.check(out, f"after {op}({name!r}, {sym!r})")
         if out.failures:
             break
-    if not out.failures:
+    if inconsistent_declaration:
+        out.classes.append("history:cross-dimension-zero-accepted")
+    if not out.failures and not inconsistent_declaration:
         # import everything, in whatever order is left, and compare with the default order
         try:
             r.w.load("measured.systems")
